@@ -158,6 +158,8 @@ def independence_case(col, auto_update, seed):
 
 def bounded(tier, seed):
     col = util.Collector()
+    from rtc.c01 import CORE_RULE, core_native
+    core_native(col, seed)
     for au in (True, False):
         try:
             stale_entry_case(col, au, seed + 7)
@@ -192,7 +194,7 @@ def bounded(tier, seed):
         except Exception as e:
             col.add({"sig": f"native::simulate::exception::{type(e).__name__}", "what": str(e)[:200], "input": {"variant": v, "auto_update": a, "skip": list(s)}})
     return {"evaluations": col.evals, "distinct_nontrivial": len(combos),
-            "rule": ("BOUNDED: models mu ~ N(1000, .001), log_sigma ~ N(-5, .001) (current 3.0), sigma = exp(log_sigma) cached, y (4x3) ~ N(loc, sigma) with loc = mu directly / through a weak "
+            "rule": (CORE_RULE + "; " + "BOUNDED: models mu ~ N(1000, .001), log_sigma ~ N(-5, .001) (current 3.0), sigma = exp(log_sigma) cached, y (4x3) ~ N(loc, sigma) with loc = mu directly / through a weak "
                      "variable / through a bare Calc / positional mu with keyword scale; both auto-update settings; skip sets {}, {mu}, {y}: values near the NEW parents, shapes kept, skipped "
                      f"untouched, nothing outdated after update, same seed same result, result independent of auto_update; models entered with outdated nodes (value assigned while auto-update was off); models built with copy=True (the user's originals stay untouched); shapes kept for per_obs on / off with leading sample, batch and event dimensions; two i.i.d. siblings and a child must not share their noise; a hierarchy with a re-parameterised (Var.transform, instance and default bijector) variable in the middle. seeds {seed}.."),
             "samples": [{"variant": "calc", "auto_update": False, "skip": []}], "exhaustive": False, "violations": col.violations}
